@@ -1457,6 +1457,28 @@ func genSeq(rt *rapid.T) SeqCase {
 			}
 			continue
 		}
+		if op == opTCPActive && rapid.IntRange(0, 2).Draw(rt, "listen-where-it-lives") == 0 {
+			// an active open from a specific local address and port, then a listener on exactly
+			// that address and port while the connection lives, then segments for both: the
+			// connection (most specific) must keep receiving its own
+			a := genStep(rt, opTCPActive)
+			a.Bind = 2
+			a.Addr = rapid.SampledFrom([]int{0, 1, 2}).Draw(rt, "laddr")
+			if a.V6 {
+				a.Addr = rapid.SampledFrom([]int{3, 4}).Draw(rt, "laddr6")
+			}
+			l := genStep(rt, opTCPListen)
+			l.Former, l.Ref = false, -1
+			l.V6, l.V6Only, l.Mapped, l.Addr, l.Port = a.V6, false, false, a.Addr, a.Port
+			c.Steps = append(c.Steps, a, l)
+			for k := rapid.IntRange(2, 4).Draw(rt, "probes-tcp"); k > 0; k-- {
+				in := genStep(rt, opInject)
+				in.Trans, in.Former, in.Rst, in.Mut = transTCP, false, 0, 0
+				in.Ref = rapid.IntRange(0, 5).Draw(rt, "pref-tcp")
+				c.Steps = append(c.Steps, in)
+			}
+			continue
+		}
 		c.Steps = append(c.Steps, genStep(rt, op))
 	}
 	return c
